@@ -54,6 +54,7 @@ type sCtl struct {
 	rng     *rand.Rand // non-nil: random choice beyond prefix
 	maxStep int
 	aborted bool
+	noYield bool // set by the running actor around calls inside which it must not park (it would hold a mutex)
 }
 
 type sChoice struct{ idx, n int }
@@ -62,7 +63,7 @@ const pointCallReturn = 1000 // pseudo point: an API call of the actor returned
 
 func (c *sCtl) hook(id int, arg unsafe.Pointer) {
 	a := c.cur
-	if a == nil || !c.points[id] {
+	if a == nil || !c.points[id] || c.noYield {
 		return
 	}
 	if id == skiplist.VpFlushLocked {
